@@ -17,6 +17,7 @@ fn main() {
             "time" => Box::new(streams::time::TimeExec),
             "wire" => Box::new(streams::wire::WireExec),
             "inst" | "bmca" | "port" => Box::new(streams::inst::InstExec::new()),
+            "cmp" => Box::new(streams::gen_bmca::CmpExec),
             _ => panic!("unknown stream"),
         };
         for line in std::io::BufReader::new(file).lines() {
@@ -57,6 +58,8 @@ fn main() {
         "time" => streams::time::generate(&mut out, &rng, thorough),
         "wire" => streams::wire::generate(&mut out, &rng, thorough),
         "inst" => streams::gen_inst::generate(&mut out, &rng, thorough),
+        "cmp" => streams::gen_bmca::generate_cmp(&mut out, &rng, thorough),
+        "bmca" => streams::gen_bmca::generate_bmca(&mut out, &rng, thorough),
         _ => panic!("unknown stream {stream}"),
     }
     out.finish();
